@@ -2,15 +2,18 @@ import SqlModel.GroupingParse
 import SqlProofs.GroupLeaves
 import SqlProofs.GroupNonEmpty
 import SqlProofs.AccessorSpec
+import SqlProofs.Bookkeeping
 /-!
 # C03 — grouping is purely structural and yields a well-formed token tree
 
 Proved about the model: (a) the leaves of a grouped statement are the statement's tokens, same values and order, same types except
 re-typing *to* Operator (`LeafRel`); (b) no group is empty (all 25 passes, via the invariant `goodL` and per-pass index facts);
 (c) the navigation helpers meet their specifications on every tree.
-Not modelled (checked on the real objects by the oracle on every sampled input): the `parent` references, object identity ("occurs once") and the
-cached `value` of groups — the pure tree has no pointers; `within/has_ancestor/is_child_of` are compared against the path-based
-model by stream S-ACC.  That only `*`/operator tokens are re-typed is checked by the oracle (the model allows re-typing any token to Operator).
+(d) The mutable side — `parent` references, object identity ("occurs once") and the cached `value` of groups — is modelled as a heap of
+objects (`SqlModel/Bookkeeping.lean`: `TokenList.__init__` and `group_tokens`, the only code through which grouping mutates the tree; that
+confinement is checked syntactically on every run, the heap model is tied to the real objects by stream S-HEAP): every history of
+`group_tokens` calls on the Statement the splitter builds keeps the heap a well-formed tree.  The link "the passes call `group_tokens` only
+with non-empty slices" is (b); `within/has_ancestor/is_child_of` are compared against the path-based model by stream S-ACC.  That only `*`/operator tokens are re-typed is checked by the oracle (the model allows re-typing any token to Operator).
 -/
 namespace Sql.C03
 open Sql.Acc
@@ -35,5 +38,25 @@ theorem token_next_spec : type_of% @tokenNext_spec := @tokenNext_spec
 theorem token_prev_spec : type_of% @tokenPrev_spec := @tokenPrev_spec
 theorem token_first_spec : type_of% @tokenFirst_spec := @tokenFirst_spec
 theorem token_index_spec : type_of% @tokenIndex_spec := @tokenIndex_spec
+
+/-- (d) **bookkeeping, every history**: the Statement built by the splitter from a non-empty token list, regrouped by *any* script of
+`group_tokens` calls (any group as receiver, any class, any non-empty slice, `extend` on or off; calls that raise change nothing), is a
+well-formed heap — for every recursion budget of `str()` above the number of calls + 1. -/
+theorem bookkeeping_every_history : type_of% @BK.statement_history_wf := @BK.statement_history_wf
+/-- (d) the step behind it: one call keeps the invariant (ghost `rank` = acyclicity witness, ghost `T` = text of every object) -/
+theorem group_tokens_keeps_invariant : type_of% @BK.groupTokens_inv := @BK.groupTokens_inv
+/-- (d) what a well-formed heap guarantees: `child.parent` is the group that contains it -/
+theorem parent_names_container : type_of% @BK.WF.parent_names_container := @BK.WF.parent_names_container
+/-- (d) … no object is a child twice (neither in one group nor in two) -/
+theorem occurs_once : type_of% @BK.WF.occurs_once := @BK.WF.occurs_once
+/-- (d) … no group is empty -/
+theorem heap_groups_nonempty : type_of% @BK.WF.group_nonempty := @BK.WF.group_nonempty
+/-- (d) … and every group's cached `value` is its current `str()` -/
+theorem cached_value_is_text : type_of% @BK.WF.cached_value_is_text := @BK.WF.cached_value_is_text
+
+/-- non-vacuity: a concrete history (new group, extension of it, nested group) satisfies the hypotheses -/
+example : BK.WF (BK.runOps (fun hx i => BK.strF hx 10 i) (BK.mkStatement [txt "a", txt ".", txt "b", txt " "])
+    [⟨4, .Identifier, 0, 1, true, false⟩, ⟨4, .Identifier, 0, 1, true, true⟩, ⟨5, .Parenthesis, 1, 2, true, false⟩]).1 :=
+  BK.statement_history_wf _ (by decide) _ 10 (by decide) (by decide)
 
 end Sql.C03
